@@ -345,6 +345,11 @@ def main():
         try:
             # smooth inputs: QA / QH axes with one or two harmonics (plus sine/cosine partners when not symmetric), admissible at nphi=61
             cfg, q = gen_admissible(rng, order=order, asym=(tried % 2 == 0), qh=(tried % 3 == 0), signs=sg, nphi=61, shear=True)
+            if not q.lasym and tried % 4 == 1:
+                c2 = single_knob_variant(cfg, rng)        # exactly one symmetry-breaking input (B2s alone, sigma0 alone, ...)
+                q2, msgs2 = build(c2, shear=True)
+                if admissible(q2, msgs2):
+                    cfg, q = c2, q2
         except RuntimeError:
             continue
         key = '%s/%s/%s/nfp%d/sG%+d/spsi%+d' % ('QH' if q.helicity else 'QA', 'asym' if q.lasym else 'sym', cfg['order'], cfg['nfp'], cfg['sG'], cfg['spsi'])
